@@ -660,6 +660,12 @@ func c12Namespaces(w *World, r *Report) {
 						}
 					}
 					if diag == nil {
+						// the helper that owns the name set answers "taken" (a boolean constant on the already-present edge) and the
+						// diagnostic is filed by its callers, on that answer
+						if duplicateAnsweredAndReported(fn, t, funcs) != "" {
+							ok = true
+							break
+						}
 						verdict = "the already-present edge of the membership test does not report a diagnostic"
 						continue
 					}
@@ -803,6 +809,9 @@ func c12Namespaces(w *World, r *Report) {
 				has = true
 			}
 		})
+		if !has && entersFieldsThroughHelper(w, fn, funcs) {
+			has = true
+		}
 		key := fmt.Sprintf("%s collects fields into a checked namespace", fnKey(fn))
 		if has {
 			r.pass(rule, key, w.pos(fn.Pos()), "")
@@ -811,6 +820,84 @@ func c12Namespaces(w *World, r *Report) {
 		}
 	}
 	r.floor(rule, 6)
+}
+
+// appendedFields: the *model.Field values fn appends to a list of fields.
+func appendedFields(fn *ssa.Function) map[ssa.Value]bool {
+	out := map[ssa.Value]bool{}
+	forEachInstr(fn, func(b *ssa.BasicBlock, ins ssa.Instruction) {
+		c, ok := ins.(*ssa.Call)
+		if !ok {
+			return
+		}
+		bi, ok := c.Call.Value.(*ssa.Builtin)
+		if !ok || bi.Name() != "append" || len(c.Call.Args) < 2 {
+			return
+		}
+		sl, ok := c.Type().Underlying().(*types.Slice)
+		if !ok || !typeIs(sl.Elem(), modPath+"/internal/model", "Field") {
+			return
+		}
+		if vs, ok := c.Call.Args[1].(*ssa.Slice); ok {
+			if al, ok := vs.X.(*ssa.Alloc); ok {
+				for _, ref := range *al.Referrers() {
+					if ia, ok := ref.(*ssa.IndexAddr); ok {
+						for _, r2 := range *ia.Referrers() {
+							if st, ok := r2.(*ssa.Store); ok {
+								out[stripIdentity(st.Val)] = true
+							}
+						}
+					}
+				}
+			}
+		}
+	})
+	return out
+}
+
+// entersFieldsThroughHelper: the collector keeps its name set in a record (or hands the set to a helper) and enters every field
+// it appends through a helper of the parse phase: some call passes an appended field to a function whose parameter is entered -
+// itself, or under its Name - into a `fields` namespace. Whether that insertion is guarded is decided at the insertion.
+func entersFieldsThroughHelper(w *World, fn *ssa.Function, phase []*ssa.Function) bool {
+	inPhase := map[*ssa.Function]bool{}
+	for _, f := range phase {
+		inPhase[f] = true
+	}
+	appended := appendedFields(fn)
+	found := false
+	forEachInstr(fn, func(_ *ssa.BasicBlock, ins ssa.Instruction) {
+		c, ok := ins.(*ssa.Call)
+		if !ok || found || c.Call.IsInvoke() {
+			return
+		}
+		g := soleCallee(c)
+		if g == nil || g == fn || !inPhase[g] || len(c.Call.Args) != len(g.Params) {
+			return
+		}
+		forEachInstr(g, func(_ *ssa.BasicBlock, i2 ssa.Instruction) {
+			mu, ok := i2.(*ssa.MapUpdate)
+			if !ok || namespaceOf(w, g, mu.Map) != "fields" {
+				return
+			}
+			// the entered value is a parameter of the helper, or the key is that parameter's name
+			pi := paramIndexOf(g, mu.Value)
+			if pi < 0 {
+				if ld, ok := stripIdentity(mu.Key).(*ssa.UnOp); ok && ld.Op == token.MUL {
+					if fa, ok := ld.X.(*ssa.FieldAddr); ok {
+						pi = paramIndexOf(g, fa.X)
+					}
+				}
+			}
+			if pi < 0 || !isFieldPtr(c.Call.Args[pi].Type()) {
+				return
+			}
+			if len(appended) > 0 && !appended[stripIdentity(c.Call.Args[pi])] {
+				return
+			}
+			found = true
+		})
+	})
+	return found
 }
 
 // nsGuardedAtCallSites: fn inserts (key derived from one of its parameters) into a name set kept in a record; every call site of fn
@@ -1199,6 +1286,10 @@ func collectorRules(w *World, r *Report, ruleLen, ruleLink string) {
 							}
 						}
 					}
+					// ... or the entry a resolver (a helper returning (entry, found) of its lookup) found, under the found edge
+					if foundLookupValue(fn, st.Val, b) != nil {
+						linked = true
+					}
 				})
 			}
 			key := fnKey(fn) + " links match fields to their key field"
@@ -1336,13 +1427,34 @@ func c12Resolution(w *World, r *Report) {
 				if wn.mapd != "" && mapDesc(lk.X) != wn.mapd {
 					return
 				}
-				hit := false
-				for _, kp := range w.keyPathsOf(fn, lk.Index) {
-					if kp == wn.key || strings.TrimPrefix(kp, ".") == strings.TrimPrefix(wn.key, ".") {
-						hit = true
+				kp := keyPath(lk.Index)
+				if kp != wn.key && strings.TrimPrefix(kp, ".") != strings.TrimPrefix(wn.key, ".") {
+					// the lookup sits in a helper that is handed the name (a `resolve` method of the record that holds the table, a
+					// closure, a function taking the table): the name is what the call sites pass, the miss is reported in the helper
+					// or, when the helper returns (entry, found), at the call site
+					if paramIndexOf(fn, lk.Index) < 0 {
+						return
 					}
-				}
-				if !hit {
+					for _, kb := range lookupKeyBindings(lk, funcs) {
+						if kb.site == nil {
+							continue
+						}
+						bk := keyPath(kb.key)
+						if bk != wn.key && strings.TrimPrefix(bk, ".") != strings.TrimPrefix(wn.key, ".") {
+							continue
+						}
+						found = true
+						if pos == "" {
+							pos = w.instrPos(kb.site)
+						}
+						tested, chk := missDiagnosed(lk, kb)
+						if chk {
+							checked = true
+						}
+						if tested && !chk && unchecked == "" {
+							unchecked = fnKey(kb.site.Parent()) + " (" + w.instrPos(kb.site) + ")"
+						}
+					}
 					return
 				}
 				found = true
@@ -1874,6 +1986,36 @@ func c12Options(w *World, r *Report) {
 		})
 	}
 	if !foundTable {
+		// the table kept as a list of rows {name, allowed values, ...} that is searched by name
+		for _, kt := range w.keyedListTables() {
+			rows := w.tableRows(kt.g)
+			t2 := map[string][]string{}
+			okAll := len(rows) > 0
+			for _, row := range rows {
+				k, okK := constString(row[kt.keyField])
+				if row[kt.keyField] == nil || !okK {
+					okAll = false
+					break
+				}
+				t2[k] = []string{}
+				if lv := row[kt.listField]; lv != nil {
+					vals, okL := w.listConstsOf(lv)
+					if !okL {
+						okAll = false
+						break
+					}
+					t2[k] = append(t2[k], vals...)
+				}
+			}
+			if okAll {
+				foundTable = true
+				for k, v := range t2 {
+					table[k] = v
+				}
+			}
+		}
+	}
+	if !foundTable {
 		r.fatal("anchor unresolved: model.options table")
 		return
 	}
@@ -1999,7 +2141,20 @@ func c12Options(w *World, r *Report) {
 		okPad[lx] = true
 	}
 	nPad := 0
-	for _, fn := range parsePhaseFuncs(w) {
+	padFuncs := parsePhaseFuncs(w)
+	// a default padding written down as a package-level record of the model is built by the package initialiser
+	if initFn := w.Model.Func("init"); initFn != nil && initFn.Blocks != nil {
+		have := false
+		for _, fn := range padFuncs {
+			if fn == initFn {
+				have = true
+			}
+		}
+		if !have {
+			padFuncs = append(padFuncs, initFn)
+		}
+	}
+	for _, fn := range padFuncs {
 		forEachInstr(fn, func(b *ssa.BasicBlock, ins ssa.Instruction) {
 			st, ok := ins.(*ssa.Store)
 			if !ok {
@@ -2321,6 +2476,31 @@ func c12DiagnosticSink(w *World, r *Report) {
 				}
 			}
 		})
+		// the table kept as a list of rows that a helper searches by name: `row, ok := find(name)`
+		for _, t := range w.rowLookupTests(fn) {
+			isTable := false
+			for _, kt := range w.keyedListTables() {
+				if kt.g == t.found.lk.g {
+					isTable = true
+				}
+			}
+			if _, isParam := stripIdentity(t.found.keyArg()).(*ssa.Parameter); !isTable || !isParam {
+				continue
+			}
+			n++
+			key := fmt.Sprintf("%s: an option name that is not in the table is reported", fnKey(fn))
+			reported := false
+			for _, db := range w.diagnosticBlocks(fn) {
+				if edgeDominates(t.branch, 1-t.presentSucc, db) {
+					reported = true
+				}
+			}
+			if reported {
+				r.pass(rule, key, w.instrPos(t.found.call), "")
+			} else {
+				r.fail(rule, key, w.instrPos(t.found.call), "the miss edge of the option table lookup reaches no diagnostic: an unknown option is accepted (or dropped) without a word")
+			}
+		}
 	}
 	if n == 0 {
 		r.fail(rule, "option table membership test found", "internal/model/model.go", "no checked lookup of an option name in the option table found in the model's parse-phase code")
